@@ -4,7 +4,7 @@ import numpy as np
 from ..runner import Acc, HarnessError
 from ..refmodel import Fmt, MODES, quantize
 from .. import alphabet as al
-from ..common import AGED, build_aged, Fxp, fx, mk, codes, flags, fmt_of, reset_class_state, obs
+from ..common import AGED, build_aged, ENVS, build as common_build, Fxp, fx, mk, codes, flags, fmt_of, reset_class_state, obs
 from ..explore import bfs, Disabled
 
 ID = 'C10'
@@ -18,6 +18,9 @@ ASSUMPTIONS = ['reference quantizer (C01)', 'the source holds exact codes (built
 
 ROUTES = ('resize', 'resize_dtype', 'resize_n_int', 'like=', 'like()', 'Fxp(x,sizes)', 'Fxp(x,n_int)', 'call', 'set_val', 'equal', 'setitem', 'fxp_like', 'value')
 # for scalar sources additionally: t[1] = x into a 1-d destination (indexed assignment of a fixed-point element)
+
+
+C10_ENVS = tuple(e for e in ENVS if e != 'flagged')       # a flagged source legitimately hands its inaccuracy on
 
 
 def fmt_grid(nws):
@@ -90,6 +93,8 @@ def make_source(src, cs, shape, by):
         return x
     if by in AGED:
         return build_aged(src, list(cs), tuple(shape), by)
+    if by.startswith('env:'):                 # the source lives in an environment (configuration options, class template, subclass, callbacks)
+        return common_build(src, list(cs), tuple(shape), by)
     if by == 'elem_hist':
         # a scalar source that is an element of an array which was read before, then resized by dtype string (from a wider, finer format)
         f0 = Fmt(src.signed, src.n_word + 4, src.n_frac + 2)
@@ -290,6 +295,9 @@ def run_shard(sh):
                     if route != 'value' and (r, o) in (('ceil', 'saturate'), ('around', 'wrap')) and (src.n_word <= 2 or g.index(dst) % 3 == sh['si'] % 3):
                         how = AGED[(g.index(dst) + ROUTES.index(route)) % len(AGED)]
                         judge(acc, src, dst, r, o, cs, (len(cs),), route, 'E1', how)          # sources reached through a history
+                    if route != 'value' and (r, o) in (('floor', 'saturate'), ('around', 'wrap')) and (src.n_word <= 2 or g.index(dst) % 4 == sh['si'] % 4):
+                        env = C10_ENVS[(g.index(dst) + 2 * ROUTES.index(route) + (o == 'wrap')) % len(C10_ENVS)]
+                        judge(acc, src, dst, r, o, cs, (len(cs),), route, 'E1', 'env:' + env)       # sources in an environment
                     if src.n_word in (2, 3) and (r, o) in (('trunc', 'saturate'), ('around', 'wrap')):
                         judge(acc, src, dst, r, o, cs[:4], (2, 2), route, 'E1m')
                         if len(cs) >= 6 and route != 'value':
